@@ -413,11 +413,26 @@ class P2SHScriptPubKey(ScriptPubKey):
         return encode_base58_checksum(prefix + self.hash160())
 
 
+def is_multisig_template(commands):
+    """True only for OP_m <pubkey> ... <pubkey> OP_n OP_CHECKMULTISIG with 1 <= m <= n <= 16 and exactly n pubkeys"""
+    if len(commands) < 4 or commands[-1] != 174:
+        return False
+    op_m, op_n = commands[0], commands[-2]
+    if not (isinstance(op_m, int) and isinstance(op_n, int)):
+        return False
+    if not 0x51 <= op_m <= op_n <= 0x60:
+        return False
+    pubkeys = commands[1:-2]
+    return len(pubkeys) == op_n - 0x50 and all(
+        isinstance(pubkey, bytes) and len(pubkey) in (33, 65) for pubkey in pubkeys
+    )
+
+
 class RedeemScript(Script):
     """Subclass that represents a RedeemScript for p2sh"""
 
     def is_p2sh_multisig(self):
-        return self.commands[-1] == 174
+        return is_multisig_template(self.commands)
 
     def hash160(self):
         """Returns the hash160 of the serialization of the RedeemScript"""
@@ -586,11 +601,7 @@ class WitnessScript(Script):
         return redeem_script.address(network)
 
     def is_p2wsh_multisig(self):
-        return (
-            OP_CODE_NAMES[self.commands[-1]] == "OP_CHECKMULTISIG"
-            and isinstance(self.commands[0], int)
-            and isinstance(self.commands[-2], int)
-        )
+        return is_multisig_template(self.commands)
 
     def get_quorum(self):
         """
